@@ -215,11 +215,11 @@ def main(argv=None):
         f"{prop} tier={tier} seed={seed}: evaluations={evaluations} distinct_nontrivial={len(sigs)} "
         f"violations={nviol} known={len(set(known))} inconclusive={len(inconcl)} wall={wall:.1f}s"
     )
+    for m in inconcl[:8]:
+        print(f"INCONCLUSIVE property={prop} reason={m}"[:1500])
     if violations:
         return 1
     if inconcl:
-        for m in inconcl[:8]:
-            print(f"INCONCLUSIVE property={prop} reason={m}"[:1200])
         return 2
     return 0
 
